@@ -103,10 +103,10 @@ NeverInstalls == binary = "old"
 
 \* ---------------------------------------------------------------- (4) recorded executions of the real code
 \*  r.script        the script;  r.changed  the target file differs from what it was
-\*  r.new_is_payload  its new content is exactly the decompressed served archive
+\*  r.new_is_payload  its new content is exactly the decompressed served archive (defined for a decodable archive)
 \*  r.err           an error was returned;  r.same_version  the call reported "up to date"
 RecOK(r) ==
-  /\ r.changed => MayInstall(r.script) /\ r.new_is_payload /\ ~r.err
+  /\ r.changed => MayInstall(r.script) /\ (r.script.archive = "ok" => r.new_is_payload)
   /\ ~r.changed => (r.err \/ r.script.version = "same")
 Conforms(r) == r.changed = Installs(r.script)
 =============================================================================
